@@ -119,6 +119,9 @@ inductive Packet where
 
 inductive WriteResult where
   | ok (bytes : List UInt8)
+  /-- `Ok(bytes)` was returned although payload and token did not fit into the 2048-byte `ArrayVec` of
+  `write_impl`: `bytes` encode a *truncated* payload / token, no error is reported -/
+  | okTruncated (bytes : List UInt8)
   | capacity                 -- `Error::Capacity`
   | tooLongData              -- `Error::TooLongData`
   | panic (site : String)
@@ -206,7 +209,11 @@ def writeChunksCore (t : Huffman.Table) (ack : Nat) (requestResend : Bool) (numC
 /-- the `Chunks` arm of `ConnectedPacket::write_impl` -/
 def writeChunks (t : Huffman.Table) (ack : Nat) (token : Option Token) (requestResend : Bool)
     (numChunks : Nat) (payload : List UInt8) (cap : Nat) : WriteResult :=
-  writeChunksCore t ack requestResend numChunks (tokenExtend payload token) cap
+  match writeChunksCore t ack requestResend numChunks (tokenExtend payload token) cap with
+  | .ok bs =>
+    -- `io::Write for ArrayVec` copied only what fitted: silent truncation
+    if token.isSome ∧ payload.length + TOKEN_SIZE > TOKEN_BUFFER_CAP then .okTruncated bs else .ok bs
+  | r => r
 
 /-- `write_connless_packet` -/
 def writeConnless (payload : List UInt8) (cap : Nat) : WriteResult :=
